@@ -215,6 +215,10 @@ func settle(run *hx.Run, bs []*blocked, wi *writeInfo, replay func() []string) {
 			run.Violate("reported-index-zero:"+b.q.Kind, b.q.name()+" returned index 0 through Server.blockingQuery", replay())
 		}
 		changed := b.res != b.before
+		if strings.HasPrefix(b.res, "err") || strings.HasPrefix(b.before, "err") {
+			run.Tag("e2e:no-verdict(error)")
+			continue
+		}
 		switch {
 		case changed && b.meta.Index > b.min:
 			run.Tag("e2e:woken-by-change")
